@@ -50,6 +50,13 @@ PROGRAMS = {
     "eom": [["declare", "g", "ryd_glob"], ["add", "g", ["cp", 100, 1.0, 0.0, 0.0]],
             ["enable_eom", "g", 2.0, 0.0, -1.0], ["add_eom", "g", 40, 0.0], ["delay", "g", 20], ["add_eom", "g", 40, 1.0],
             ["disable_eom", "g"], ["add", "g", ["cp", 52, 1.0, 0.0, 0.5]]],
+    # EOM disabled as the very last thing on the channel (differences confined to the trailing buffer)
+    "eom_tail": [["declare", "g", "ryd_glob"], ["add", "g", ["cp", 100, 1.0, 0.0, 0.0]],
+                 ["enable_eom", "g", 2.0, 0.0, -1.0], ["add_eom", "g", 40, 0.0], ["disable_eom", "g"]],
+    # the same channel declared twice on a reusable device, only the second one uses the EOM
+    "eom_twice": [["declare", "probe", "ryd_glob"], ["declare", "drive", "ryd_glob"], ["add", "probe", ["cp", 52, 1.0, 0.0, 0.0]],
+                  # (amplitude above the limiting-beam threshold: the off-detuning then depends on the EOM configuration)
+                  ["enable_eom", "drive", 8.0, 0.0, -1.0], ["add_eom", "drive", 40, 0.0], ["delay", "drive", 20], ["add_eom", "drive", 16, 1.0]],
     "retarget": [["declare", "l", "ryd_loc", "q0"], ["add", "l", ["cp", 16, 1.0, 0.0, 0.0]], ["target", "l", "q1"],
                  ["add", "l", ["cp", 16, 1.0, 0.0, 0.0]], ["target", "l", ["q0", "q2"]], ["add", "l", ["cp", 16, 1.0, 0.0, 1.0]]],
     "dmm": [["declare", "g", "ryd_glob"], ["config_dmap", {"q0": 1.0, "q1": 0.5, "q2": 0.0}, "dmm_0"],
@@ -104,16 +111,33 @@ def mk_device_b(inp, A, shape):
 
 def h_switch(shape):
     def h(inp):
-        stubs.bind(inp, fixed=(shape["program"] == "eom"))
+        stubs.bind(inp, fixed=shape["program"].startswith("eom"))
         from pulser.pulse import Pulse
 
-        seq = l2.new_seq("virt")
+        seq = l2.new_seq(shape.get("device", "virt"))
         A = seq.device
-        l2.run_prefix(inp, seq, PROGRAMS[shape["program"]])
+        prog = PROGRAMS[shape["program"]]
+        if shape.get("param"):
+            # the sequence becomes parametrized right after the channel declarations: everything else is deferred
+            ndecl = sum(1 for op in prog if op[0] == "declare")
+            l2.run_prefix(inp, seq, prog[:ndecl])
+            v = seq.declare_variable("v", dtype=int)
+            seq.delay(v, list(seq.declared_channels)[0])
+            l2.run_prefix(inp, seq, prog[ndecl:])
+        else:
+            l2.run_prefix(inp, seq, prog)
         try:
             B, sym = mk_device_b(inp, A, shape)
         except (ValueError, TypeError, NotImplementedError):
             raise core.Infeasible()
+        # region of finding F5: B really differs from A in one of the symbolic parameters
+        diffs = []
+        for (cid, param), v in sym.items():
+            a_ch = (dict(A.channels) | dict(A.dmm_channels))[cid]
+            a_val = a_ch.phase_jump_time if param == "custom_phase_jump_time" else (
+                a_ch.eom_config.custom_buffer_time if param == "eom.custom_buffer_time" else getattr(a_ch, param))
+            diffs.append(NOT(v == a_val) if a_val is not None else True)
+        inp.publish("b_differs_from_a", OR(*diffs) if diffs else False)
         before = l2.snapshot(seq)
         strict = shape["strict"]
         try:
@@ -124,7 +148,10 @@ def h_switch(shape):
         obs = [("switch:original_untouched", l2.snap_equal(before, l2.snapshot(seq)))]
         if not ok:
             return obs
-        if strict:
+        if strict and shape.get("param"):
+            b1, b2 = seq.build(v=16), new.build(v=16)
+            obs.append(("strict:identical_timeline", l2.snap_equal(l2.timeline(b1), l2.timeline(b2))))
+        elif strict:
             obs.append(("strict:identical_timeline", l2.snap_equal(l2.timeline(seq), l2.timeline(new))))
         else:
             # every limit of B holds for the new sequence
@@ -206,6 +233,12 @@ def kernels(tier):
                          [["ryd_glob", "eom.intermediate_detuning", 500 * TWO_PI]]):
                 ks.append(("switch", dict(program=prog, sym=[], concrete=conc, strict=True)))
         ks.append(("register", dict(program=prog)))
+    for conc in ([["ryd_glob", "eom.custom_buffer_time", 120]], [["ryd_glob", "eom.custom_buffer_time", 48]], [["ryd_glob", "eom.mod_bandwidth", 30.0]]):
+        ks.append(("switch", dict(program="eom_tail", sym=[], concrete=conc, strict=True)))
+    for param in (False, True):
+        for conc in ([["ryd_glob", "eom.intermediate_detuning", 1050 * TWO_PI]], [["ryd_glob", "eom.max_limiting_amp", 5 * TWO_PI]],
+                     [["ryd_glob", "eom.custom_buffer_time", 120]]):
+            ks.append(("switch", dict(program="eom_twice", device="virt_reuse", sym=[], concrete=conc, reusable=True, strict=True, param=param)))
     return ks
 
 
